@@ -183,7 +183,7 @@ impl<'a> Request<'a> {
                 Ok(x)
             }
             FunctionCode::WriteMultipleCoils => {
-                let range = AddressRange::parse(cursor)?;
+                let range = AddressRange::parse(cursor)?.of_write_coils()?;
                 // don't care about the count, validated b/c all bytes are consumed
                 cursor.read_u8()?;
                 Ok(Request::WriteMultipleCoils(WriteCoils::new(
@@ -192,7 +192,7 @@ impl<'a> Request<'a> {
                 )))
             }
             FunctionCode::WriteMultipleRegisters => {
-                let range = AddressRange::parse(cursor)?;
+                let range = AddressRange::parse(cursor)?.of_write_registers()?;
                 // don't care about the count, validated b/c all bytes are consumed
                 cursor.read_u8()?;
                 Ok(Request::WriteMultipleRegisters(WriteRegisters::new(
